@@ -21,6 +21,7 @@ func propC10() *Property {
 			{ID: "C10.R2", Title: "consecutive empty pages: the counter is reset on a non-empty page", Floor: 1, Run: c10R2},
 			{ID: "C10.R3", Title: "slot/source index agreement, order of concatenation, remainder request", Floor: 3, Run: c10R3},
 			{ID: "C10.R4", Title: "continuation shape", Floor: 3, Run: c10R4},
+			{ID: "C10.R5", Title: "the following page is first for a collection and next for a page, never the other way round", Floor: 2, Run: c10R5},
 		},
 	}
 }
@@ -555,4 +556,115 @@ func cellOf(v ssa.Value) *ssa.Alloc {
 		}
 	}
 	return nil
+}
+
+// c10R5: which link of a document names the page that follows depends on what
+// the document is. A (Ordered)Collection is continued by its `first` page, a
+// (Ordered)CollectionPage by its `next` page. Pages inherit `first` from the
+// collection they belong to, so a page that falls back to `first` when it has
+// no `next` sends the walk back to page one (every item again, for ever); a
+// collection that reads `next` never reaches its pages. On every path to a
+// store of the continuation link, the key that is read must agree with the
+// kind tests passed on that path.
+func c10R5(c *Ctx) {
+	P := c.P
+	ctor := P.Func("servitor/pub", "NewCollectionFromObject")
+	fname := FuncName(ctor)
+	nextField := P.Field("servitor/pub", "Collection", "next")
+	kindField := P.Field("servitor/pub", "Collection", "kind")
+	isKindRead := func(v ssa.Value) bool {
+		v = unwrapLoad(v)
+		if u, ok := v.(*ssa.UnOp); ok && u.Op == token.MUL {
+			if fa, ok := u.X.(*ssa.FieldAddr); ok && fieldOf(fa) == kindField {
+				return true
+			}
+		}
+		// or the value that was stored into kind
+		for _, fn := range append([]*ssa.Function{ctor}, Closures(ctor)...) {
+			found := false
+			eachInstr(fn, func(_ *ssa.BasicBlock, _ int, in ssa.Instruction) {
+				if st, ok := in.(*ssa.Store); ok {
+					if fa, ok := st.Addr.(*ssa.FieldAddr); ok && fieldOf(fa) == kindField && st.Val == v {
+						found = true
+					}
+				}
+			})
+			if found {
+				return true
+			}
+		}
+		return false
+	}
+	n := 0
+	for _, fn := range append([]*ssa.Function{ctor}, Closures(ctor)...) {
+		eachInstr(fn, func(b *ssa.BasicBlock, _ int, in ssa.Instruction) {
+			st, ok := in.(*ssa.Store)
+			if !ok {
+				return
+			}
+			fa, ok := st.Addr.(*ssa.FieldAddr)
+			if !ok || fieldOf(fa) != nextField {
+				return
+			}
+			n++
+			pos := P.InstrPos(in)
+			key := ""
+			if ex, ok := unwrapLoad(st.Val).(*ssa.Extract); ok {
+				if call, ok := ex.Tuple.(*ssa.Call); ok && len(call.Call.Args) >= 2 {
+					key, _ = constString(call.Call.Args[len(call.Call.Args)-1])
+				}
+			}
+			if key != "first" && key != "next" {
+				c.bad(fname+"/following-page", pos, fname, "the continuation link is not read from the document's \"first\" or \"next\" key")
+				return
+			}
+			paths, complete := enumeratePaths(fn, b, 4096)
+			if !complete {
+				c.bad(fname+"/following-page:"+key, pos, fname, "too many paths to decide")
+				return
+			}
+			why := ""
+			for _, pf := range paths {
+				isRoot, notRoot := false, map[string]bool{}
+				for _, f := range pf.facts {
+					cmp, ok := f.Cond.(*ssa.BinOp)
+					if !ok || (cmp.Op != token.EQL && cmp.Op != token.NEQ) {
+						continue
+					}
+					var other ssa.Value
+					switch {
+					case isKindRead(cmp.X):
+						other = cmp.Y
+					case isKindRead(cmp.Y):
+						other = cmp.X
+					default:
+						continue
+					}
+					s, isC := constString(other)
+					if !isC {
+						continue
+					}
+					equal := (cmp.Op == token.EQL) == f.Truth
+					if s == "Collection" || s == "OrderedCollection" {
+						if equal {
+							isRoot = true
+						} else {
+							notRoot[s] = true
+						}
+					}
+					if (s == "CollectionPage" || s == "OrderedCollectionPage") && equal {
+						notRoot["Collection"], notRoot["OrderedCollection"] = true, true
+					}
+				}
+				if key == "first" && !isRoot {
+					why = "\"first\" is read on a path where the document is not known to be a Collection/OrderedCollection: pages inherit \"first\", so the last page leads back to the first one and every item is delivered again, without end"
+				}
+				if key == "next" && !(notRoot["Collection"] && notRoot["OrderedCollection"]) {
+					why = "\"next\" is read on a path where the document may be a Collection/OrderedCollection, whose pages start at \"first\": the pages of the collection are never visited"
+				}
+			}
+			c.check(why == "", fname+"/following-page:"+key, pos, fname, "\""+key+"\" is read exactly for the kinds it continues", why)
+		})
+	}
+	c.check(n >= 1, fname+"/following-page-stores", P.Pos(ctor.Pos()), fname, fmt.Sprintf("%d stores of the continuation link", n), "the constructor no longer records the following page")
 }
